@@ -153,7 +153,7 @@ def body_range_wrapper(I, X, nchunks=2, total=6, seekable=False):
     return ok, {"out": out}
 
 
-def body_process_range(I, X, n=3):
+def body_process_range(I, X, n=3, if_range="none"):
     """(b) on top: Response._process_range_request with a solver Range header"""
     from werkzeug.exceptions import RequestedRangeNotSatisfiable
     from werkzeug.wrappers import Response
@@ -164,10 +164,17 @@ def body_process_range(I, X, n=3):
     X.assume(pall_in(tail, [(0x30, 0x39), 0x2D, 0x2C]))
     resp = Response([data[:3], data[3:6], data[6:]], direct_passthrough=True)
     environ = {"HTTP_RANGE": pconcat("bytes=", tail), "REQUEST_METHOD": "GET"}
+    if if_range != "none":
+        resp.set_etag("cur")
+        environ["HTTP_IF_RANGE"] = '"cur"' if if_range == "match" else '"old"'
     try:
         done = I.call(resp._process_range_request, (environ, total, True))
     except RequestedRangeNotSatisfiable:
-        return True, {"status": 416}
+        # a failed If-Range means the Range header is ignored altogether: never a 416
+        return if_range != "mismatch", {"status": 416}
+    if if_range == "mismatch":
+        # ... and never a 206: the complete body is sent
+        return (not done) and resp.status_code == 200, {"status": "ignored" if not done else resp.status_code}
     if not done:
         return False, {"status": "ignored"}
     status = resp.status_code
@@ -373,6 +380,9 @@ def obligations(tier, seed):
         add(f"range_wrapper[seekable,total={total}]", "body_range_wrapper", {"nchunks": 1, "total": total, "seekable": True})
     for n in ([1, 2, 3] if quick else [1, 2, 3, 4, 5]):
         add(f"process_range[n={n}]", "body_process_range", {"n": n}, n == 3, 1500)
+    for ir in ("match", "mismatch"):
+        for n in ([0, 1, 2, 3] if quick else [0, 1, 2, 3, 4]):
+            add(f"process_range[n={n},if_range={ir}]", "body_process_range", {"n": n, "if_range": ir}, False, 1500)
     combos = [(3, 3, "GMT", "aware"), (2, 3, "+0130", "aware"), (12, 1, "-0800", "naive"), (1, 12, "+2359", "aware"), (3, 2, "-0000", "naive"),
               (3, 3, "GMT", "off+0530"), (1, 12, "-0800", "off-1100")]
     if not quick:
